@@ -6,7 +6,8 @@ import sys
 from pathlib import Path
 from typing import NoReturn, List, Tuple
 
-PLAN_COMPONENT_REGEX = r"\d: ([\w+\s?-]+)\n"
+# a plan step occupies a single line: only blanks and tabs may separate its components.
+PLAN_COMPONENT_REGEX = r"\d: ([\w+ \t?-]+)\r?\n"
 VALID_PLAN_FOUND_PATTERN = "ff: found legal plan as follows"
 NO_SOLUTION_OPTIONS = [
     "problem proven unsolvable.",
